@@ -134,8 +134,8 @@ package crlrepository
 //@   ensures entryInv(entry)
 //@   assigns crlrepository.Entry.CRLStore, crlrepository.Entry.Loaded, crlrepository.Entry.LastUpdateSignatureVerifyFailed, crlrepository.Entry.LastUpdateSignature, crlrepository.Entry.Chains, M.map[string][]uint8, X.ldbhas, X.fs, X.net, X.retry, X.stream, X.spos, X.hacc, X.hkind, E.uint8, E.any, fresh:E.*core.CertificateChainEntry, H.crlloader.MultiSchemesCRLLoader, H.crlloader.URLLoader, H.crlloader.FileLoader
 //@   ensures sameLocks()
-//@   ensures[C16,C04] loaded_only_if_accepted: entry.Loaded && !old(entry.Loaded) ==> err == nil && called(CRLReader.ReadCRL#1) && res(CRLReader.ReadCRL#1, 1) == nil && (sigMode(R) != config.SignatureValidationModeVerify || (called(verifyCRLSignature#1) && res(verifyCRLSignature#1, 1) == nil))
-//@   ensures[C16,C04] verify_failure_rejects: sigMode(R) == config.SignatureValidationModeVerify && called(verifyCRLSignature#1) && res(verifyCRLSignature#1, 1) != nil ==> err != nil && entry.Loaded == old(entry.Loaded)
+//@   ensures[C16,C04,C10,C11] loaded_only_if_accepted: entry.Loaded && !old(entry.Loaded) ==> err == nil && called(CRLReader.ReadCRL#1) && res(CRLReader.ReadCRL#1, 1) == nil && (sigMode(R) != config.SignatureValidationModeVerify || (called(verifyCRLSignature#1) && res(verifyCRLSignature#1, 1) == nil))
+//@   ensures[C16,C04,C10,C11] verify_failure_rejects: sigMode(R) == config.SignatureValidationModeVerify && called(verifyCRLSignature#1) && res(verifyCRLSignature#1, 1) != nil ==> err != nil && entry.Loaded == old(entry.Loaded)
 //@   ensures[C16] lenient_modes_accept: called(CRLReader.ReadCRL#1) && res(CRLReader.ReadCRL#1, 1) == nil && sigMode(R) != config.SignatureValidationModeVerify && !(called(CRLPersisterProcessor.UpdateSignatureCertificate#1) && res(CRLPersisterProcessor.UpdateSignatureCertificate#1) != nil) ==> err == nil && entry.Loaded
 //@   ensures[C16] success_means_loaded: err == nil ==> entry.Loaded
 //@   ensures[C11] rejected_crl_leaves_no_entries: err != nil ==> (forall k string :: storeHas(entry.CRLStore, k) == old(storeHas(entry.CRLStore, k)))
@@ -194,7 +194,7 @@ package crlrepository
 // ---- lookup (C01 C09 C10 C11)
 
 //@ func Repository.checkCrl
-//@   props C01 C09 C11 C13
+//@   props C01 C04 C08 C09 C11 C13 C16
 //@   requires repoOK(R) && norwlocks() && certificate != nil
 //@   assigns L.held, crlrepository.Entry.CRLStore, crlrepository.Entry.Loaded, crlrepository.Entry.LastUpdateSignatureVerifyFailed, crlrepository.Entry.LastUpdateSignature, crlrepository.Entry.Chains, X.fs, E.uint8, X.stream, X.spos
 //@   ensures sameLocks()
